@@ -86,7 +86,7 @@ def score_c08(chk: Check, ep: qos.Episode, res: qos.Result) -> None:
     started = {i: by_call[i][0] for i in by_call}
     for i in started:
         for j in started:
-            if i == j or ep.calls[i]["cmd"] >= qos.N_PLAIN or ep.calls[j]["cmd"] >= qos.N_PLAIN:
+            if i == j or not qos.is_plain(ep.calls[i]["cmd"]) or not qos.is_plain(ep.calls[j]["cmd"]):
                 continue   # (a command sent in another device's name joins the queue only after its notice has gone out)
             ti, tj = res.started.get(i, 0), res.started.get(j, 0)
             both_queued_before = max(ti, tj) < min(started[i], started[j]) - EPS
@@ -165,6 +165,14 @@ def run_prop(chk: Check, which: str) -> None:
             chk.sample({"episode": ep.to_json(), "writes": [(round(t, 6), f[:40]) for t, f in res.writes][:8],
                         "outcomes": {i: (round(o[0], 6), o[1], o[2][:50]) for i, o in res.outcomes.items()}, "final": res.final_state})
     if which == "C08":
+        # long queues of mixed priorities behind a command whose echoes are lost, callers giving up while queued, late arrivals
+        for k in range(6000 if thorough else 500):
+            ep = qos.gen_jam(rnd)
+            res = qos.run_episode(ep)
+            chk.evaluations += 1
+            chk.nontrivial.add(json.dumps(ep.to_json(), sort_keys=True))
+            score_c08(chk, ep, res)
+            chk.count("c08.jam.abandoned_in_queue", sum(1 for i in res.outcomes if i not in {w for w in res.write_calls if w is not None}))
         # a caller that gives up while still queued, between a command in flight and a live one behind it, all echoes
         # lost: the one in flight and the one behind are each sent exactly 1 + min(max_retries, 3) times, the dead one never
         for mr_a, mr_b, mr_c in ((0, 3, 3), (3, 0, 3), (3, 3, 0), (1, 5, 2), (2, 0, 5), (0, 0, 1), (5, 1, 0)):
